@@ -14,7 +14,7 @@ theorem step_rinvW (cfg : Cfg) (h3 : Fixed3 cfg) (s t : St) (f : Bool) (h : Step
 
 theorem step_rinv (cfg : Cfg) (h3 : Fixed3 cfg) (s t : St) (f : Bool)
     (h4 : cfg.setReadOnlyReleasesOnClose = true ∨ NoSR s)
-    (hJ1 : s.closed = true → 0 < tot srW s.ws → s.ehTok = true) (hJ2 : s.eh = .closing → s.ehTok = true)
+    (hJ1 : 0 < tot srW s.ws → s.ehTok = true) (hJ2 : s.eh = .closing → s.ehTok = true)
     (h : Step cfg f s t) (inv : RInv s) : RInv t :=
   ⟨step_tokE s t f cfg h3 h4 hJ1 hJ2 h inv.tokI, step_clk s t f cfg h3 h inv.clkI, step_trlk s t f cfg h3 h inv.trlkI⟩
 
